@@ -1287,6 +1287,8 @@ func TestProp(t *testing.T) {
 		return
 	}
 	defer r.Finish()
+	var pool evid.Pool[Case] // rapid-drawn cases, evaluated side by side once more at the end
+	defer func() { evid.Concurrent(r, &pool, 16, Eval) }()
 	r.Regress()
 	if err := cf.SelfTest(mitSample()); err != nil {
 		r.Inconclusive("independent ccache writer/reader self-test failed: %v", err)
@@ -1321,6 +1323,9 @@ func TestProp(t *testing.T) {
 			r.Sample(cls, c)
 		}
 		if rt != nil {
+			if v.OK {
+				pool.Add(check, c)
+			}
 			if r.Judge(check, c, v) {
 				rt.Fatalf("violation: %s", v.Sig)
 			}
